@@ -80,6 +80,8 @@ type c02Scenario struct {
 	// Grants (request index, increment) are the stream WINDOW_UPDATEs it then sends, in this order
 	InitWin uint32   `json:"initial_window,omitempty"`
 	Grants  [][2]int `json:"grants,omitempty"`
+	// Seg: how the transport cuts the server's octets (harness.SegMode 1..3), the server's SETTINGS included
+	Seg int `json:"seg,omitempty"`
 }
 
 func c02Body(spec harness.ReqSpec) []byte {
@@ -368,6 +370,8 @@ func c02Run(sc c02Scenario) (*fw.Violation, *harness.Client) {
 	if sc.InitWin > 0 {
 		opts.ServerSettings = []peer.Setting{{ID: peer.SInitialWindowSize, Val: sc.InitWin}}
 	}
+	harness.SegMode = sc.Seg
+	defer func() { harness.SegMode = 0 }()
 	h := harness.NewClient(opts)
 	mk := func(rule, shape, detail string) *fw.Violation {
 		return &fw.Violation{Rule: rule, Shape: shape, Detail: detail + "\n    events: " + strings.Join(h.EventLog, " ; "), Replay: map[string]any{"family": "c02", "scenario": sc}}
@@ -460,7 +464,16 @@ func runC02(c *fw.Ctx) {
 	thorough := c.Tier == "thorough"
 	var item int64
 	sampled := 0
+	var doRef func(sc c02Scenario)
 	do := func(sc c02Scenario) {
+		if sc.Seg == 0 && (sc.Family == "request-shapes" || sc.Family == "response-encoding") {
+			// the same octets from the server, cut differently by the transport
+			for seg := 1; seg <= 3; seg++ {
+				ss := sc
+				ss.Seg = seg
+				defer doRef(ss)
+			}
+		}
 		if item++; !c.Mine(item) {
 			return
 		}
@@ -489,6 +502,7 @@ func runC02(c *fw.Ctx) {
 		}
 		h.Close()
 	}
+	doRef = do
 	// family: every request shape alone, default response
 	for ri := range c02Reqs {
 		do(c02Scenario{Family: "request-shapes", Reqs: []int{ri}, Resps: []c02Resp{defaultResp("0")}})
